@@ -369,7 +369,7 @@ impl Part for Random {
         "random"
     }
     fn cases(&self, tier: Tier) -> u32 {
-        tier.pick(2500, 120_000)
+        tier.pick(6000, 120_000)
     }
     fn strategy(&self, tier: Tier) -> BoxedStrategy<Case> {
         let maxlen = tier.pick(60usize, 200usize);
